@@ -148,10 +148,17 @@ Op(name, i, j, k, l, rs, cs) == [op |-> name, i |-> i, j |-> j, k |-> k, l |-> l
 O0(name) == Op(name, 0, 0, 0, 0, <<>>, <<>>)
 B2I(b) == IF b THEN 1 ELSE 0
 
-CONSTANTS OpsLevel,      \* "all" | "core" : which part of the catalogue is enabled
+CONSTANTS OpsLevel,      \* "all" | "std" | "core" : which part of the catalogue is enabled ("std": every operation,
+                         \*   reduced set of coefficient pairs; "core": the operations of CoreOps only)
           Limit          \* bound on the magnitude of numerators / denominators (keeps 32-bit arithmetic exact)
 
+\* scalars and coefficients include the special values 0 and 1 (where an implementation takes shortcuts)
 Scalars == {2, -3}
+AddScalars == {0, 2, -3}
+ProdScalars == {0, 1, 2, -3}
+CoefValues == {-2, 0, 1, 3}
+CoefPairs == IF OpsLevel = "all" THEN CoefValues \X CoefValues
+             ELSE {<<1, 1>>, <<2, -3>>, <<3, 0>>, <<0, -2>>, <<1, 0>>, <<0, 1>>, <<0, 0>>, <<-2, 1>>}
 SetVal == -7
 \* index lists used by the sub-sampling operations for a dimension n (<<>> = all)
 IdxLists(n) == {<<>>} \cup {<<n>>} \cup (IF n >= 2 THEN {<<n, 1>>} ELSE {}) \cup (IF n >= 3 THEN {<<2, 3>>} ELSE {})
@@ -192,9 +199,9 @@ RawCatalogue(s) ==
 \cup (IF sq THEN {Op("SetDiagConst", 0, 0, 5, 0, <<>>, <<>>)} ELSE {})
      \* transposition, scalars
 \cup {O0("TransposeInPlace")}
-\cup {Op("AddScalar", 0, 0, k, 0, <<>>, <<>>) : k \in Scalars}
-\cup {Op("AddScalarDiag", 0, 0, k, 0, <<>>, <<>>) : k \in Scalars}
-\cup {Op("ProdScalar", 0, 0, k, 0, <<>>, <<>>) : k \in Scalars}
+\cup {Op("AddScalar", 0, 0, k, 0, <<>>, <<>>) : k \in AddScalars}
+\cup {Op("AddScalarDiag", 0, 0, k, 0, <<>>, <<>>) : k \in AddScalars}
+\cup {Op("ProdScalar", 0, 0, k, 0, <<>>, <<>>) : k \in ProdScalars}
 \cup {Op("Fill", 0, 0, 4, 0, <<>>, <<>>), Op("SetIdentity", 0, 0, 3, 0, <<>>, <<>>)}
      \* scaling of rows / columns by the vector register
 \cup (IF n = r /\ vInt THEN {O0("MultiplyRow")} ELSE {})
@@ -203,8 +210,8 @@ RawCatalogue(s) ==
 \cup (IF n = c /\ vInt /\ ColDivisible(A, v.x) THEN {O0("DivideColumn")} ELSE {})
      \* sums and linear combinations with B
 \cup (IF r = R(B) /\ c = C(B)
-      THEN {Op("AddMat", 0, 0, 1, 1, <<>>, <<>>), Op("AddMat", 0, 0, 2, -3, <<>>, <<>>),
-            Op("LinComb", 0, 0, 3, -2, <<>>, <<>>)} ELSE {})
+      THEN {Op("AddMat", 0, 0, p[1], p[2], <<>>, <<>>) : p \in CoefPairs}
+           \cup {Op("LinComb", 0, 0, p[1], p[2], <<>>, <<>>) : p \in CoefPairs} ELSE {})
      \* products  A := op(A) op(B)
 \cup {Op("ProdMatMat", B2I(ta), B2I(tb), 0, 0, <<>>, <<>>) : ta \in BOOLEAN, tb \in BOOLEAN}
 \cup (IF R(B) = C(B) THEN {Op("ProdNormMatMat", B2I(t), 0, 0, 0, <<>>, <<>>) : t \in BOOLEAN} ELSE {})
@@ -306,7 +313,7 @@ PreOK(o, s) ==
     [] o.op = "ProdNormMat" -> Fits3(MaxM(s.A), 1)
     [] OTHER -> TRUE
 
-Enabled(o, s) == /\ (IF OpsLevel = "all" THEN TRUE ELSE o.op \in CoreOps)
+Enabled(o, s) == /\ (IF OpsLevel \in {"all", "std"} THEN TRUE ELSE o.op \in CoreOps)
                  /\ ShapeOK(o, s)
                  /\ PreOK(o, s)
                  /\ Magnitude(Do(o, s)) <= Limit
@@ -329,7 +336,7 @@ SymOp(o) == \/ o.op \in {"SetSym", "SetDiag", "SetDiagConst", "TransposeInPlace"
 \* sparse storages: addScalar is documented to act on the stored terms only, so it is promised
 \* only when every term is stored (no zero term); inversion / solve go through a Cholesky
 \* factorisation (symmetric positive definite matrices only)
-SparseOp(o, s) == /\ (o.op = "AddScalar" => NoZero(s.A.m))
+SparseOp(o, s) == /\ ((o.op = "AddScalar" /\ o.k # 0) => NoZero(s.A.m))
                   /\ (o.op \in {"Invert", "Solve"} => IsSPD(s.A.m))
 Profiles(o, pre, post) ==
      {"rect"}
